@@ -5,5 +5,6 @@ pub mod driver;
 pub mod fmt;
 pub mod known;
 pub mod props;
+pub mod queue;
 pub mod util;
 pub mod writer;
